@@ -479,6 +479,10 @@ func Encode(w io.Writer, file *File, arch binary.ByteOrder) error {
 	if err != nil {
 		return fmt.Errorf("encode failed: Header: %w", err)
 	}
+	if file.Header.Size == headerSizeCRC {
+		// MarshalBinary has a value receiver: record the CRC it wrote.
+		file.Header.CRC = le.Uint16(hdr[headerSizeNoCRC:headerSizeCRC])
+	}
 
 	// Calculate file CRC
 	crc := dyncrc16.New()
